@@ -145,6 +145,9 @@ NEAR_EXEMPT = [("POST", "/vmAgentLog"), ("GET", "/machine/?comp=telemetrydata"),
                ("PUT", "/vmagentlog/"), ("POST", "/machine/?comp=telemetrydata&x=1"), ("DELETE", "/machine/?comp=telemetrydata")]
 
 
+_BIG = {"left": 3}
+
+
 def concretize(case, rnd, n, harness_exe, thorough, session=None):
     """-> (steps, meta) for one scenario; meta carries the inputs of the obs event and the prescribed outcome.
     With `session` = (conn name, uid) the request is sent on that already open keep-alive connection."""
@@ -183,7 +186,14 @@ def concretize(case, rnd, n, harness_exe, thorough, session=None):
                 blen, declared = 64, LARGE + rnd.choice([1, 2, 4096])   # refused on the declared length alone
             else:
                 blen = LARGE + 1
-                if n % 997 != 3 and (not thorough or rnd.random() > 0.02):
+                # 100 MiB bodies are sampled: the first few scenarios of a run in which the request gets as far as the
+                # body (attributed, elevated caller, no rule set, not malformed), plus a random few in the thorough tier
+                reaches_body = own["has"] and own["elevated"] and not sh["trav"] and not sh["prov"] and \
+                    own["dest"] in ("ws", "ga", "imds") and case["rules"].get(own["dest"], "none") in ("none", "disabled") and \
+                    not case["fault"] and not session
+                if reaches_body and _BIG["left"] > 0:
+                    _BIG["left"] -= 1
+                elif not thorough or rnd.random() > 0.02:
                     skip = "100 MiB chunked bodies are sampled (a few per run)"
         else:
             blen = LOW + rnd.choice([1, 1, 2, 1000, 100000])
